@@ -6,6 +6,7 @@
 use std::io::{self, BufRead, Write};
 use std::panic::{catch_unwind, AssertUnwindSafe};
 
+mod node;
 mod orswot;
 mod rpc;
 mod ts;
@@ -20,6 +21,7 @@ fn new_domain(name: &str, params: &[&str]) -> Option<Box<dyn Domain>> {
         "ts" => Some(Box::new(ts::TsDomain::new(params))),
         "orswot" => Some(Box::new(orswot::OrswotDomain::new(params))),
         "rpc" => Some(Box::new(rpc::RpcDomain::new(params))),
+        "node" => Some(Box::new(node::NodeDomain::new(params))),
         _ => None,
     }
 }
